@@ -125,6 +125,16 @@ CLAIMED = {
    ref="5/C19", note=TB + "translator vlib/translators/checks.py (reachability of assert/raise/return; a fixed call chain whose links are verified "
         "syntactically); the mapping clause -> check (e.g. NaN intensity is caught by 'Finite y') is stated in Model/Validate.v and exercised by the conformance.",
    technique="Coq proof (finite coverage of regenerated reachable checks) + exhaustive single-corruption conformance"),
+ "C18": dict(
+   text="Proof: any two accepted section definitions with the same (bath, stretch) pairs in another order select the same locations in the same row order "
+        "(bath names are a type variable, so renaming cannot matter) (T62); permuting observation rows - which is what a permutation of time steps or sections "
+        "does - changes neither the cost nor its minimisers (T66); a detector gain leaves every weight unchanged, shifts the observations by eval(form, s) and "
+        "moves every optimum by exactly that shift with the same cost, and leaves the intensity part of the temperature variance unchanged (T63). Conformance: "
+        "pairs of real runs under each transformation (dict/stretch order, renaming, gain 1e-3..1e3 with k^2 variance, variance as float/array/DataArray/"
+        "callable, deletion of unreferenced locations, time permutation) at 1e-8 relative; two identical calls bit-identical; input hashed before/after. "
+        "Single-ended time permutation is a KNOWN FINDING (F1: x-major weights are not equivariant).",
+   ref="5/C18", note=TB + "purity is observed, not proved; T64/T65 (variance forms, deletion) are true by construction of the model (it takes arrays, and rows only "
+        "read reference/matching cells) and are covered by the conformance pairs only.", technique="Coq proof of invariance/equivariance of the WLS problem + metamorphic pairs of real runs"),
 }
 NA = {}
 ALL = [f"C{i:02d}" for i in range(1, 21)]
